@@ -568,7 +568,8 @@ pub fn run_after(preds: &[Scenario], scn: &Scenario) -> History {
 /// Self-check of the simulator: what the records say equals what descriptor 1 accepted
 pub fn self_check(h: &History) -> Result<(), String> {
     let recs = h.records_text();
-    if recs.as_bytes() != &h.raw_out[..] {
+    // (a handle-level write may be cut inside a character: then both sides are compared as text)
+    if recs.as_bytes() != &h.raw_out[..] && recs != String::from_utf8_lossy(&h.raw_out) {
         return Err(format!(
             "records ({} bytes) differ from raw output ({} bytes)",
             recs.len(),
